@@ -108,7 +108,7 @@ func copyGoTree(src, dst string) error {
 			return nil
 		}
 		n := info.Name()
-		if !(strings.HasSuffix(n, ".go") || n == "go.mod" || n == "go.sum") || strings.HasSuffix(n, "_test.go") {
+		if !(strings.HasSuffix(n, ".go") || strings.HasSuffix(n, ".y") || n == "go.mod" || n == "go.sum") || strings.HasSuffix(n, "_test.go") {
 			return nil
 		}
 		if err := os.MkdirAll(filepath.Dir(filepath.Join(dst, rel)), 0o755); err != nil {
